@@ -202,11 +202,13 @@ class Post(Contract):
                    'parse_qsl is total (proved in contracts/C18.py); _collect_multipart raises only RequestErrors (FieldStorage contracts) '
                    '- provided the stored markup error is a RequestError, which holds for every exception the markup parser raises '
                    'on purpose (BaseMarkupException family; an internal assertion of the parser would be a 500: bounded)',)
-    expected_labels = ('raise.only_mapped_errors', 'multipart.request_errors_go_through_the_error_map', 'json.only_objects_become_form_data')
+    expected_labels = ('raise.only_mapped_errors', 'multipart.request_errors_go_through_the_error_map', 'json.only_objects_become_form_data',
+                       'post.both_views_published_in_the_environ')
 
     def pre(self, X):
         g = X.globals
         self.ReqErr, self.ParseErr = g['RequestError'], g['BodyParsingError']
+        self.published = set()
         self.kind = ('multipart', 'json', 'urlencoded')[X.choose(3, 'content type')]
         ct = {'multipart': 'multipart/form-data; boundary=x', 'json': 'application/json', 'urlencoded': 'application/x-www-form-urlencoded'}[self.kind]
         self.json_kind = None
@@ -265,12 +267,21 @@ class Post(Contract):
         return None
 
     def setitem_hook(self, X, obj, key, val):
-        return isinstance(obj, VObj) and obj.cls == 'Environ'
+        if isinstance(obj, VObj) and obj.cls == 'Environ':
+            k = z3.simplify(key.t) if isinstance(key, VStr) else None
+            if k is not None and z3.is_string_value(k):
+                self.published = getattr(self, 'published', set()) | {k.as_string()}
+            return True
+        return False
 
     def isinstance_hook(self, X, v, classes):
         return None
 
     def post(self, X, ret):
+        # forms / files read the environ entries of their view after forcing POST (contracts/getters.py): every normal return of POST
+        # must have published both, whatever the body was
+        X.prove('post.both_views_published_in_the_environ',
+                z3.BoolVal({'ombott.request.forms', 'ombott.request.files'} <= getattr(self, 'published', set())))
         if self.kind == 'json':
             X.prove('json.only_objects_become_form_data', z3.BoolVal(self.json_kind in (1, 2)))
         X.prove('post.returns_the_form_dict', z3.BoolVal(isinstance(ret, VObj) and ret.cls == 'Forms'))
